@@ -470,6 +470,10 @@ func (c12) RunCase(c *core.Ctx) {
 				if c.R.Bool() {
 					v := fmt.Sprintf("%s-case%d-%d-%s", key, c.Case, k, mode)
 					want[key] = v
+					if c.R.Intn(4) == 0 {
+						// the key given twice in one call (defaults of a helper, then the caller's own): the later value is the one passed
+						opts = append(opts, z.WithCtxValue(key, "overridden-"+v))
+					}
 					opts = append(opts, z.WithCtxValue(key, v))
 				}
 			}
